@@ -198,6 +198,19 @@ def check_point_reader_exact_len(ctx, P, rs, types):
             copied = copied and not edits
             ok = eq and copied
         ctx.ob("E4.len", ty, ok, "%s::try_from: checked from_bytes under len(value) == len(representation), on the input bytes themselves, unedited" % ty, where=where(f))
+        # ... and no success of its own: whatever the reader returns as Ok is the checked decoder's payload, or is
+        # returned where the decoder's verdict has been branched on (a shortcut that recognises "the identity" by a flag
+        # byte, a cached value, accepts encodings the decoder would refuse)
+        is_fb = lambda t: t.op == "call" and B.cname(t) == "GroupEncoding::from_bytes"
+        for rb in sorted(ev.ret_at):
+            rv = strip_sites(ev.ret_at[rb])
+            alts = list(rv.a[0]) if rv.op == "phi" else [rv]
+            for a_ in alts:
+                if a_.op == "agg" and a_.a[0][0] == "adt" and len(a_.a[0]) > 2 and a_.a[0][2] == "Err":
+                    continue
+                via_value = any(is_fb(t) for t in subterms(a_))
+                via_path = any(hasattr(x, "op") and any(is_fb(t) for t in subterms(strip_sites(x))) for atom, pol in G.path_literals(ev, rb, P, checks_only=True) for x in atom[2:])
+                ctx.ob("E4.decode-verdict", "%s@bb%d" % (ty, rb), via_value or via_path, "%s::try_from hands out as success only what the checked decoder accepted (value built from from_bytes=%s, exit behind its verdict=%s): %s" % (ty, via_value, via_path, show(a_, 3)), where=where(f, rb))
 
 
 _SWALLOW = ("unwrap_or", "unwrap_or_default", "unwrap_or_else")
